@@ -212,12 +212,17 @@ func TestVfC14Faults(t *testing.T) {
 }
 
 func TestVfC14Stale(t *testing.T) {
-	st := vfkit.Stats("TestVfC14Stale", "per connection-oriented transport: after a successful exchange the server kills the pooled idle connection(s) by FIN or RST, 0 us-50 ms before the next call, and stays healthy, 1-40 rounds per case; oracle: the next exchange succeeds within its 3 s deadline using at most 7 new connections; and a server that kills every connection on the first query yields an error with at most 7 connections per exchange; non-trivial = every case")
+	st := vfkit.Stats("TestVfC14Stale", "per connection-oriented transport: after a successful exchange the server kills the pooled idle connection(s) by FIN or RST (quic also: keeps them open but resets every new stream on them), 0 us-50 ms before the next call, and stays healthy, 1-40 rounds per case; oracle: the next exchange succeeds within its 3 s deadline using at most 7 new connections; and a server that kills every connection on the first query yields an error with at most 7 connections per exchange; non-trivial = every case")
 	defer vfkit.Flush()
 	_, leaf := vfTLSMaterial()
 	rapid.Check(t, func(t *rapid.T) {
 		kind := rapid.SampledFrom([]string{"tcp", "tcp+pipeline", "tls", "tls+pipeline", "https", "quic", "h3"}).Draw(t, "kind")
 		mode := rapid.SampledFrom([]string{"stale-fin", "stale-rst", "always-kill"}).Draw(t, "mode")
+		if kind == "quic" && rapid.Bool().Draw(t, "streamResets") {
+			// the pooled connection stays open, but the server refuses every new stream on it (it is draining that
+			// connection); connections dialled afterwards are served
+			mode = "stale-stream-reset"
+		}
 		var killAll atomic.Bool
 		srv, err := vfkit.StartUpstream(kind, "s", "127.0.0.1", 0, vfkit.ServerTLS(leaf), func(q *vfkit.UpQuery) vfkit.UpAction {
 			if killAll.Load() {
@@ -242,13 +247,18 @@ func TestVfC14Stale(t *testing.T) {
 		}
 		before := srv.Conns()
 		switch mode {
-		case "stale-fin", "stale-rst":
+		case "stale-fin", "stale-rst", "stale-stream-reset":
 			// several rounds per case: kill, wait 0 .. 50 ms (mostly next to nothing, so that the next exchange meets the
 			// connection while the client side is still finding out), exchange - which is also the warm-up of the next round
 			rounds := rapid.IntRange(1, 40).Draw(t, "rounds")
 			for r := 0; r < rounds; r++ {
 				before = srv.Conns()
-				killed := srv.KillConns(mode == "stale-rst")
+				killed := 0
+				if mode == "stale-stream-reset" {
+					srv.ResetStreamsOnLiveConns()
+				} else {
+					killed = srv.KillConns(mode == "stale-rst")
+				}
 				gap := time.Duration(rapid.SampledFrom([]int{0, 0, 0, 20, 60, 150, 400, 1000, 5000, 50000}).Draw(t, "gapMicros")) * time.Microsecond
 				if gap > 0 {
 					time.Sleep(gap)
